@@ -12,15 +12,16 @@ import (
 )
 
 type scope struct {
-	vars      map[string]Val
-	extra     map[string]Val
-	oldHeap   map[string]Term
-	oldWorlds []WorldState
-	inOld     bool
-	inQuant   bool // evaluating under a quantifier (bound variables in scope)
-	world     int // world index "W" refers to
-	nq        int
-	pkg       *ssa.Package // package whose constants / variables are in scope (callee contracts)
+	vars        map[string]Val
+	extra       map[string]Val
+	oldHeap     map[string]Term
+	oldWorlds   []WorldState
+	inOld       bool
+	inQuant     bool // evaluating under a quantifier (bound variables in scope)
+	preferLocal bool // local(x): an address-taken parameter is read from its cell (current value), not its entry value
+	world       int  // world index "W" refers to
+	nq          int
+	pkg         *ssa.Package // package whose constants / variables are in scope (callee contracts)
 }
 
 func newScope() *scope { return &scope{vars: map[string]Val{}, extra: map[string]Val{}} }
@@ -32,7 +33,7 @@ func (s *scope) addVars(m map[string]Val) {
 }
 
 func (s *scope) child() *scope {
-	n := &scope{vars: map[string]Val{}, extra: s.extra, oldHeap: s.oldHeap, oldWorlds: s.oldWorlds, inOld: s.inOld, inQuant: s.inQuant, world: s.world, nq: s.nq, pkg: s.pkg}
+	n := &scope{vars: map[string]Val{}, extra: s.extra, oldHeap: s.oldHeap, oldWorlds: s.oldWorlds, inOld: s.inOld, inQuant: s.inQuant, world: s.world, nq: s.nq, pkg: s.pkg, preferLocal: s.preferLocal}
 	for k, v := range s.vars {
 		n.vars[k] = v
 	}
@@ -106,6 +107,13 @@ func (x *Exec) lookupIdent(st *State, fr *Frame, name string, sc *scope) (Val, e
 		return v, nil
 	}
 	if fr != nil {
+		if sc.preferLocal {
+			if b, ok := fr.names[name]; ok && b.isAddr {
+				if v, ok := x.bindingVal(st, b); ok {
+					return v, nil
+				}
+			}
+		}
 		for i, p := range fr.fn.Params {
 			if p.Name() == name && i < len(fr.params) {
 				return fr.params[i], nil
@@ -638,6 +646,7 @@ func (x *Exec) evalCall(st *State, fr *Frame, e ECall, sc *scope) (Val, error) {
 		if id, ok := e.Args[0].(EIdent); ok {
 			c := sc.child()
 			delete(c.vars, id.Name)
+			c.preferLocal = true
 			return x.lookupIdent(st, fr, id.Name, c)
 		}
 	}
